@@ -59,6 +59,7 @@ func newEnv() *env.Env {
 	}
 	// every value also sits in a named list and a named map that stay reachable; bump() overwrites all those places and returns 1:
 	// an operand that was read from one of them before bump() ran keeps the value it was read as
+	var typed []reflect.Value
 	var lists [][]interface{}
 	var maps []map[interface{}]interface{}
 	for _, n := range e.GetValueSymbols() {
@@ -71,6 +72,14 @@ func newEnv() *env.Env {
 		lists, maps = append(lists, l), append(maps, m)
 		e.Define("hl_"+n, l)
 		e.Define("hm_"+n, m)
+		if v != nil {
+			t := reflect.MakeSlice(reflect.SliceOf(reflect.TypeOf(v)), 1, 1)
+			t.Index(0).Set(reflect.ValueOf(v))
+			typed = append(typed, t)
+			e.DefineValue("ht_"+n, t)
+		} else {
+			e.Define("ht_"+n, []interface{}{nil})
+		}
 	}
 	e.Define("bump", func() int64 {
 		for _, l := range lists {
@@ -78,6 +87,9 @@ func newEnv() *env.Env {
 		}
 		for _, m := range maps {
 			m["k"] = int64(99)
+		}
+		for _, t := range typed {
+			t.Index(0).Set(reflect.Zero(t.Type().Elem())) // the slot gets the zero value of its type
 		}
 		return 1
 	})
